@@ -3,6 +3,9 @@ package main
 import (
 	"bytes"
 	"context"
+	"crypto"
+	"crypto/rsa"
+	"crypto/sha256"
 	"encoding/base64"
 	"encoding/json"
 	"errors"
@@ -239,6 +242,32 @@ func (r *run) cardShapes() {
 				nil, crash)
 		}
 	}
+	// signing with an identity that cannot sign: no keys, no identity in the store, a key that has expired
+	for _, s := range []struct {
+		note string
+		sg   identity.Signer
+	}{
+		{"signer whose identity has no keys", identity.NewSimpleCore(&fixedStore{doc: storeDoc(nil, nil)}, at(valid))},
+		{"store without an identity", identity.NewSimpleCore(&fixedStore{doc: []byte(`{"PrivateKeys":[{"ID":"k0","Key":"x"}]}`)}, at(valid))},
+		{"signer whose only key has expired", coreOf(ks, pri, (T+3601)*ns)},
+		{"signer whose only key is not valid yet", coreOf([]cardKey{{ID: "k0", Type: "ssh-rsa", Alg: jwt.AlgRS256, Key: fixedKeys[0].Pub,
+			NVA: T + 3600, NVB: T + 100}}, pri, valid)},
+	} {
+		var t2 string
+		var serr error
+		crash := guard(func() { t2, serr = identity.SignSelf(ctx, s.sg, user, host, time.Unix(T, 0)) })
+		note := "SignSelf; " + s.note
+		if crash != "" && strings.HasPrefix(s.note, "store without") {
+			// a store document without an identity makes simpleCore.Identity return (nil, nil): a broken
+			// card contract, tolerated like the nil/nil card below as long as nothing is issued
+			note, crash = note+" (panicked: "+crash+")", ""
+		}
+		r.use("card", note, Facts{Genuine: true, InTime: false, Consent: true}, crash == "" && serr == nil && t2 != "", nil, crash,
+			Pair{"token", t2, ""})
+		var sig *identity.Signature
+		crash = guard(func() { sig, serr = s.sg.Sign(ctx, "", []byte("blob")) })
+		r.use("card", "Sign; "+s.note, Facts{Genuine: true, InTime: false, Consent: true}, crash == "" && serr == nil && sig != nil, nil, crash)
+	}
 	// a card that returns neither an identity nor an error breaks its contract; whatever happens, nothing is accepted
 	var t *jwt.Token
 	var verr error
@@ -257,17 +286,155 @@ func ksOf(id *identity.Identity) []cardKey {
 	return ks
 }
 
+// rotation: histories of {verify, card change, clock change} on ONE verifier
+// from identity.NewJWTVerifier and ONE authgate.Exchange, over a card whose
+// answer changes between calls: a key replaced under the same id, a new id
+// added, the old id removed, a key expired, restored.  Every verification is a
+// case for the model with the card in force at that moment; the case carries
+// the history so far.
 func (r *run) rotation() {
 	initRSA()
+	r.initKeys()
 	const st = "usage-rotation"
 	const ns = int64(time.Second)
 	T := int64(1700000000)
 	const user, host = "robot", "example.com"
+	signTok := func(kid string, ki int, iat int64) []byte {
+		hj := `{"alg":"RS256","typ":"JWT","kid":` + string(mustJSON(kid)) + `}`
+		cj := mustJSON(map[string]interface{}{"iss": ".", "sub": user, "aud": host, "iat": iat, "exp": iat + 300})
+		txt := b64([]byte(hj)) + "." + b64(cj)
+		h := sha256.Sum256([]byte(txt))
+		sig, err := rsa.SignPKCS1v15(nil, rsaPri[ki], crypto.SHA256, h[:])
+		if err != nil {
+			panic(err)
+		}
+		return []byte(txt + "." + b64(sig))
+	}
+	type tk struct {
+		name string
+		kid  string
+		mat  int
+		iat  int64
+		tok  []byte
+		id   int
+	}
+	mkTok := func(name, kid string, mat int, iat int64) *tk {
+		t := &tk{name: name, kid: kid, mat: mat, iat: iat, tok: signTok(kid, mat, iat), id: r.ntok}
+		r.ntok++
+		return t
+	}
+	key := func(id string, mat int, nvb, nva int64) cardKey {
+		return cardKey{ID: id, Type: "ssh-rsa", Alg: jwt.AlgRS256, Key: fixedKeys[mat].Pub, NVA: nva, NVB: nvb}
+	}
+	type cstate struct {
+		name string
+		ks   []cardKey
+	}
+	states := []cstate{
+		{"main=key1", []cardKey{key("main", 1, 0, T+5000)}},
+		{"main=key2 (replaced under the same id)", []cardKey{key("main", 2, 0, T+5000)}},
+		{"main=key1, v2=key0 (new id added)", []cardKey{key("main", 1, 0, T+5000), key("v2", 0, T-10, T+9000)}},
+		{"v2=key0 (old id removed)", []cardKey{key("v2", 0, T-10, T+9000)}},
+		{"v2=key0 expired", []cardKey{key("v2", 0, T-10, T-1)}},
+		{"main=key2, then main=key1 (shadowed)", []cardKey{key("main", 2, 0, T+5000), key("main", 1, 0, T+5000)}},
+		{"no keys", nil},
+	}
+	toks := []*tk{mkTok("A(main,key1)", "main", 1, T), mkTok("B(main,key2)", "main", 2, T), mkTok("C(v2,key0)", "v2", 0, T),
+		mkTok("D(main,key1,later)", "main", 1, T+200)}
+	type op struct {
+		set int // >= 0: the card now answers states[set]
+		tok int // else: verify toks[tok] at instant now (seconds)
+		now int64
+	}
+	set := func(i int) op { return op{set: i} }
+	ver := func(t int, now int64) op { return op{set: -1, tok: t, now: now} }
+	runHist := func(label string, start int, ops []op) {
+		card := cardOf(states[start].ks)
+		cur := states[start]
+		v := identity.NewJWTVerifier(card)
+		ss := signer.NewSessions(hmacKeys[1], time.Hour)
+		clk := &clock{T * ns}
+		ss.TimeFunc = clk.now
+		x := authgate.NewExchange(authgate.New(&authgate.Config{Sessions: ss}),
+			&authgate.ExchangeConfig{Audience: host, Issuer: identity.Self, Card: card, Now: clk.now})
+		hist := []string{label + ": one verifier, one exchange; card: " + cur.name}
+		for _, o := range ops {
+			if o.set >= 0 {
+				cur = states[o.set]
+				card.PublicKeys = cardOf(cur.ks).PublicKeys
+				hist = append(hist, "card: "+cur.name)
+				continue
+			}
+			t := toks[o.tok]
+			now := o.now * ns
+			hist = append(hist, "verify "+t.name+" at T"+strconv.FormatInt(o.now-T, 10)+"s")
+			// what the property says, from the card in force now
+			var named *cardKey
+			for i := range cur.ks {
+				if cur.ks[i].ID == t.kid {
+					named = &cur.ks[i]
+					break
+				}
+			}
+			published := named != nil && named.Key == fixedKeys[t.mat].Pub
+			keyNow := named != nil && (named.NVB <= 0 || now >= named.NVB*ns) && now <= named.NVA*ns
+			tokNow := t.iat*ns-300*ns < now && now <= (t.iat+300)*ns
+			class := "card:history"
+			if published {
+				class = "genuine"
+			}
+			r.hist = append([]string{}, hist...)
+			r.jwtRSCaseOn(card, v, st, cur.ks, now, t.tok, false, "", "", &Mut{Tok: t.id, Class: class, Same: true})
+			clk.ns = now
+			var creds *signinapi.Creds
+			var err error
+			crash := guard(func() {
+				creds, err = x.Exchange(&aries.C{Context: ctx}, &signinapi.Request{User: user, AccessToken: string(t.tok),
+					TTLDuration: timeutil.NewDuration(time.Minute)})
+			})
+			var out []byte
+			if err == nil && creds != nil {
+				out = []byte(creds.User)
+			}
+			c := &Case{Stream: "usage-rotation-exchange", Op: "usage", Note: "one authgate.Exchange over a changing card: " + hist[len(hist)-1] +
+				" while the card is: " + cur.name, History: r.hist,
+				Facts: &Facts{Genuine: published, InTime: keyNow && tokNow, Consent: true, Payload: hx16([]byte(user))}}
+			c.Obs.Ok = crash == "" && err == nil && creds != nil && creds.Token != ""
+			if c.Obs.Ok {
+				c.Obs.Out = hx16(out)
+			}
+			c.Obs.Crash = crash
+			r.emit(c)
+			r.hist = nil
+		}
+	}
+	// the key of an id replaced under the same id, and back
+	runHist("replace-under-same-id", 0, []op{ver(0, T+1), set(1), ver(0, T+2), ver(1, T+2), set(0), ver(0, T+3), ver(1, T+3)})
+	// the first contact with an id is a refusal
+	runHist("refusal-first", 0, []op{ver(1, T+1), set(1), ver(1, T+2), ver(0, T+2), set(5), ver(0, T+3), ver(1, T+3)})
+	// a new id is added, the old id removed, the new key expires; the clock moves both ways
+	runHist("rotate-to-new-id", 0, []op{ver(0, T+1), ver(2, T+1), set(2), ver(0, T+2), ver(2, T+2), set(3), ver(0, T+3), ver(2, T+3),
+		ver(2, T+301), ver(2, T+300), ver(2, T-300), ver(2, T-299), set(4), ver(2, T+4), set(3), ver(2, T+5), set(6), ver(2, T+6), ver(0, T+6),
+		set(2), ver(3, T+200), ver(3, T-101), ver(0, T+200)})
+	// seeded histories
+	for h := 0; h < 5*r.scale; h++ {
+		var ops []op
+		for i := 0; i < 24; i++ {
+			if r.rng.Intn(3) == 0 {
+				ops = append(ops, set(r.rng.Intn(len(states))))
+			} else {
+				now := T + []int64{1, 150, 299, 300, 301, -299, -300, 450, 501}[r.rng.Intn(9)]
+				ops = append(ops, ver(r.rng.Intn(len(toks)), now))
+			}
+		}
+		runHist("seeded-"+strconv.Itoa(h), r.rng.Intn(len(states)), ops)
+	}
+
+	// the core rotates: the key that signed is removed, later tokens are signed by the remaining one
 	ks := []cardKey{
 		{ID: "old", Type: "ssh-rsa", Alg: jwt.AlgRS256, Key: fixedKeys[1].Pub, NVA: T + 1000, NVB: T - 1000},
 		{ID: "new", Type: "ssh-rsa", Alg: jwt.AlgRS256, Key: fixedKeys[2].Pub, NVA: T + 5000, NVB: T - 50}}
-	pri := []string{fixedKeys[1].Pri, fixedKeys[2].Pri}
-	store := &fixedStore{doc: storeDoc(ks, pri)}
+	store := &fixedStore{doc: storeDoc(ks, []string{fixedKeys[1].Pri, fixedKeys[2].Pri})}
 	core := identity.NewSimpleCore(store, at(T*ns))
 	tokS, err := identity.SignSelf(ctx, core, user, host, time.Unix(T, 0))
 	if err != nil {
@@ -277,33 +444,13 @@ func (r *run) rotation() {
 	tokid := r.ntok
 	r.ntok++
 	valid := (T + 1) * ns
-	// (a) a card object edited in place between calls of one verifier
-	card := cardOf(ks)
-	v := identity.NewJWTVerifier(card)
-	orig := append([]*identity.PublicKey{}, card.PublicKeys...)
-	other := &identity.PublicKey{ID: "new", Type: "ssh-rsa", Alg: jwt.AlgRS256, Key: fixedKeys[0].Pub, NotValidAfter: T + 5000}
-	expired := *orig[1]
-	expired.NotValidAfter = T - 1
-	step := func(name string, keys []*identity.PublicKey) {
-		card.PublicKeys = keys
-		class := "card:rotate-" + name
-		if name == "restored" || name == "initial" {
-			class = "genuine"
-		}
-		r.jwtRSCaseOn(card, v, st, ksOf(card), valid, tok, false, "", "", &Mut{Tok: tokid, Class: class, Same: true})
-		r.jwtRSCaseOn(card, nil, st, ksOf(card), valid, tok, true, user, host, &Mut{Tok: tokid, Class: class, Same: true})
+	_, _, cp := parseSegs(tok)
+	if cp != nil {
+		iat, _ := strconv.ParseInt(cp.Iat, 10, 64)
+		exp, _ := strconv.ParseInt(cp.Exp, 10, 64)
+		r.use("rotation", "SignSelf: default lifetime of a self token", Facts{Genuine: true, InTime: true, Consent: true}, true, nil, "",
+			Pair{"exp-minus-iat", strconv.FormatInt(exp-iat, 10), "300"}, Pair{"iat", cp.Iat, strconv.FormatInt(T, 10)})
 	}
-	step("initial", orig)
-	step("key-expired", []*identity.PublicKey{orig[0], &expired})
-	step("restored", orig)
-	step("key-removed", orig[:1])
-	step("restored", orig)
-	step("key-replaced", []*identity.PublicKey{orig[0], other})
-	step("shadowed", []*identity.PublicKey{other, orig[0], orig[1]})
-	step("restored", orig)
-	step("no-keys", nil)
-	step("restored", orig)
-	// (b) the core rotates: the key that signed is removed, later tokens are signed by the remaining one
 	verify := func(class string, tk []byte, id int) {
 		cur, err := core.Identity(ctx)
 		if err != nil {
